@@ -346,7 +346,9 @@ func checkC18(p *Program, r *Report) {
 				}
 				r.Check(guard, "C18.R3", funcName(fn)+"|script args guarded", p.Pos(instrPos(sl)), "taken only when at least one argument is present", "flag.Args()[1:] can be evaluated with no arguments (slice bounds panic)")
 				// with -e there is no file name: every positional argument belongs to the script
-				if eg := executeFlagGlobal(sp); eg != nil {
+				eg := executeFlagGlobal(sp)
+				r.Check(eg != nil, "C18.R3", "main|-e flag", "anko.go", "the command registers the -e flag", "the command does not register a -e flag: source text cannot be given on the command line")
+				if eg != nil {
 					noE := false
 					for d := b; d != nil && d.Idom() != nil; d = d.Idom() {
 						id := d.Idom()
